@@ -129,10 +129,19 @@ func CurrentYield(site string) {
 }
 
 func (s *Sched) wait() schedEvent {
+	// (one-second ticks are counted, not wall-clock time: a machine frozen for a
+	// minute lets one tick pass, not sixty)
+	for ticks := 0; time.Duration(ticks)*time.Second < deadlockTimeout; ticks++ {
+		select {
+		case ev := <-s.events:
+			return ev
+		case <-time.After(time.Second):
+		}
+	}
 	select {
 	case ev := <-s.events:
 		return ev
-	case <-time.After(deadlockTimeout):
+	default:
 		// The one task that was released neither reached its next seam nor
 		// finished: with every other task parked (none of them holding a lock
 		// the simulator knows of) that is a deadlock inside the code under test —
